@@ -105,7 +105,7 @@ Section LastOwner2.
     Lemma last_owner_value_dropped b E o m x m2 :
       Pre K PreC b E (KDropCc o) m ->
       get m o = Some x -> is_in_list_or_queue (o_hdr x) = false -> h_rc (o_hdr x) = 1 ->
-      rec (KDropValue o) (last_owner_mid o m) = (m2, ONormal) ->
+      rec (KDropValue o) (last_owner_mid K o m) = (m2, ONormal) ->
       o_box x = BAlloc /\ o_vst x = VLive /\
       exists y, get m2 o = Some y /\ o_vst y = VDropped /\ o_box y = BAlloc /\ o_ismap y = o_ismap x.
     Proof.
@@ -166,14 +166,14 @@ Section LastOwner2.
       Pre K PreC b E (KDropCc o) m ->
       get m o = Some x -> is_in_list_or_queue (o_hdr x) = false -> h_rc (o_hdr x) = 1 ->
       k_fin K && needs_fin (o_hdr x) = false ->
-      rec (KDropValue o) (last_owner_mid o m) = (m2, ONormal) ->
+      rec (KDropValue o) (last_owner_mid K o m) = (m2, ONormal) ->
       exists mf yf, step_drop_cc K P rec o m = (mf, ONormal) /\
         get mf o = Some yf /\ o_box yf = BFreed /\ o_vst yf = VDropped /\
         In (EFree o (box_layout K x).1 (box_layout K x).2) (log mf).
     Proof.
       intros Hpre Hx Hmk Hrc Hfin Hr.
       destruct (last_owner_value_dropped b E o m x m2 Hpre Hx Hmk Hrc Hr) as (Hb & _ & y & Hy & Hvy & _ & Hmap).
-      destruct (last_owner_freed rec o m x m2 y Hx Hb Hmk Hrc Hfin Hr Hy) as (mf & yf & Hs & _ & Hg & Hbf & Hvf & Hl).
+      destruct (last_owner_freed K P rec o m x m2 y Hx Hb Hmk Hrc Hfin Hr Hy) as (mf & yf & Hs & _ & Hg & Hbf & Hvf & Hl).
       exists mf, yf. split; [exact Hs|]. split; [exact Hg|]. split; [exact Hbf|]. split; [congruence|].
       (* the layout is that of the original object: [o_ismap] is preserved ([of_ismap]) *)
       unfold box_layout in *. rewrite Hmap in Hl. exact Hl.
@@ -313,3 +313,17 @@ Section Weak.
     eauto.
   Qed.
 End Weak.
+
+Print Assumptions obs_never_too_low.
+Print Assumptions obs_alive.
+Print Assumptions obs_alive_slot.
+Print Assumptions last_owner_value_dropped.
+Print Assumptions last_owner.
+Print Assumptions dead_never_upgrades.
+Print Assumptions dead_upgrade_none.
+Print Assumptions weak_count_exact_W.
+Print Assumptions weak_weak_count_exact.
+Print Assumptions side_alive_while_weak_freed.
+Print Assumptions side_freed_no_weak.
+Print Assumptions side_freed_once.
+Print Assumptions obs_weak_count.
